@@ -106,6 +106,20 @@ def run_names(unit):
             rec('the committed hip-ra-x-request.json equals the generated schema', json.loads(json.dumps(hreq)) == committed, {})
     except Exception as e:
         log.note(f'HIP-RA-X schema comparison skipped: {type(e).__name__}')
+    # result schema: every field named there is one the client extracts (its own extraction table, per category)
+    try:
+        from geophires_x_client.geophires_x_result import GeophiresXResult as _GR
+        table = {cat: {(f if isinstance(f, str) else f.field_name) for f in fields} for cat, fields in _GR._RESULT_FIELDS_BY_CATEGORY.items()}
+        for which, schema in (('generated', res), ('committed', json.load(open(os.path.join(d, 'geophires-result.json'))))):
+            stray = [f'{cat} / {field}' for cat, spec in schema.get('properties', {}).items() for field in spec.get('properties', {})
+                     if field not in table.get(cat, set())]
+            rec(f'every field named in the {which} result schema is one the client extracts from a report (same category of its extraction table)',
+                not stray, {'fields the client does not extract': stray[:20]})
+            lost = [f'{cat} / {field}' for cat, fields in table.items() for field in fields
+                    if field not in schema.get('properties', {}).get(cat, {}).get('properties', {})]
+            rec(f'every field the client extracts is named in the {which} result schema', not lost, {'fields missing from the schema': lost[:20]})
+    except Exception as e:
+        log.note(f'result-schema / client table comparison skipped: {type(e).__name__} {e}')
     # result schema: every field is a label the writer can print
     try:
         from . import c09
